@@ -13,7 +13,8 @@ PROP = 'C13'
 RULE = ('cells = (wavelet, J in 1..3, HxW multiples of 2^J incl. non-square and smaller than the '
         'dilated filter, mode in {constructor default, periodization, periodic}); per cell the impulse '
         'batch (whole operator) + dense inputs vs pywt.swt2, and circular shifts; distinct by (cell, '
-        'input kind / shift); non-trivial when the input is not all-zero')
+        'input kind / shift); non-trivial when the input is not all-zero'
+        '; N, C incl. 4 and 32..64; one input class inside torch.no_grad(); reload histories')
 ASSUMPTIONS = ['pywt.swt2 (periodic boundary) is the specification', 'float64', 'sides <= 48, J <= 3']
 TIMEOUT = {'quick': 900, 'thorough': 3000}
 WORKER_BUDGET = {'quick': 600, 'thorough': 2400}
